@@ -8,3 +8,4 @@ trap "git -C /repo worktree remove --force $R" EXIT
 git -C $R apply $(pwd)/seeded/$m/patch.diff || { echo "patch does not apply"; exit 3; }
 SVGELEMENTS_REPO=$R ./check $c --tier quick 2>&1 | tail -${TAILN:-5}
 rm -f replays/$c-*.json
+git -C "$(pwd)" checkout -- lean/Generated 2>/dev/null
